@@ -74,6 +74,9 @@ var (
 	}()
 )
 
+// collFanRanges: code point ranges with a large fan-out under one sort-key node.
+var collFanRanges = [][2]rune{{0x4E00, 0x4EFF}, {0x4E00, 0x4EFF}, {0x1200, 0x12FF}, {0x3041, 0x3096}, {0x3B1, 0x3C9}, {0xA000, 0xA0FF}}
+
 var caseAccentVariants = map[rune][]rune{
 	'a': []rune("aAáÁàÀäÄâåÅ"), 'e': []rune("eEéÉèêë"), 'o': []rune("oOöÖø"), 'u': []rune("uUüÜ"),
 	'n': []rune("nNñÑ"), 'c': []rune("cCçÇ"), 's': []rune("sSß"), 'r': []rune("rR"), 'm': []rune("mM"),
@@ -136,6 +139,16 @@ func CollPool(r *rng.R, n int) []string {
 			for i := 0; i < 1+r.Intn(5); i++ {
 				cur += string(collWord(r, 1+r.Intn(3)))
 				out = append(out, cur)
+			}
+			if r.Chance(1, 2) { // a fan-out cluster: many strings under one sort-key node
+				fam := rng.Pick(r, collFanRanges)
+				p := string(collWord(r, r.Intn(3)))
+				cnt := rng.Pick(r, fanCounts)
+				start := r.Intn(int(fam[1]-fam[0]) + 1)
+				for i := 0; i < cnt && i <= int(fam[1]-fam[0]); i++ {
+					c := fam[0] + rune((start+i)%(int(fam[1]-fam[0])+1))
+					out = append(out, p+string(c))
+				}
 			}
 		default:
 			al := rng.Pick(r, collAll)
@@ -249,16 +262,15 @@ func collKindOf[K any](name string, cfg CollCfg, conv collConv[K], mk func() art
 		},
 		Near: func(r *rng.R, a K) K { return conv.to(collNear(r, conv.from(a))) },
 		Fan: func(r *rng.R) []K {
+			// scripts whose primary weights share their leading bytes and differ in
+			// the next one: the strings below hang under one inner node of the sort-key
+			// index (measured with x/text: 256-way for U+4E00.., 206-way for Ethiopic,
+			// 48 for kana, 24 for Greek)
 			p := string(collWord(r, rng.Pick(r, []int{0, 1, 4, 6})))
+			fam := rng.Pick(r, collFanRanges)
 			var out []K
-			seen := map[rune]bool{}
-			for _, al := range [][]rune{collASCII, collAccents, collDigits, collGreek, collCyr, collCJK} {
-				for _, c := range al {
-					if !seen[c] {
-						seen[c] = true
-						out = append(out, conv.to(p+string(c)))
-					}
-				}
+			for c := fam[0]; c <= fam[1]; c++ {
+				out = append(out, conv.to(p+string(c)))
 			}
 			return out
 		},
@@ -390,9 +402,12 @@ func CollString(cfg CollCfg) *Kind[string] {
 }
 
 func CollBytes(cfg CollCfg) *Kind[[]byte] {
-	return collKindOf[[]byte]("coll/bytes/"+cfg.Name, cfg,
+	k := collKindOf[[]byte]("coll/bytes/"+cfg.Name, cfg,
 		collConv[[]byte]{to: func(s string) []byte { return []byte(s) }, from: func(b []byte) string { return string(b) }},
 		collTreeChars[[]byte](cfg), true)
+	k.Shorten = func(b []byte, n int) []byte { return b[:n] }
+	k.KeyLen = func(b []byte) int { return len(b) }
+	return k
 }
 
 // CollRunes: WithCollator does not type-check for []rune, so rune-slice trees
